@@ -103,6 +103,39 @@ Theorem C01_refused_import_leaves_store : forall ep s t gid g,
 Proof. exact import_refused. Qed.
 Print Assumptions C01_refused_import_leaves_store.
 
+(* ================= loading onto a graph id that is in use ================= *)
+(* whatever the store holds under the target id (an older or modified version, another graph, nothing): after a
+   re-stamping import of a text denoting g the id holds exactly a copy of g ... *)
+Theorem C01_load_onto_id_in_use_restamp : forall ep s t gid g,
+  is_direct ep = false -> store_wf s = true -> text_graph t = Some g ->
+  graph_shape g = true -> graph_ids_ok g = true -> g_nodes g <> [] ->
+  exists s', import_via ep s t gid = (s', ROk gid)
+             /\ extract s' gid = Some (copy_of s gid g)
+             /\ content (copy_of s gid g) = content (restamp gid g).
+Proof. exact load_restamp_any_store. Qed.
+Print Assumptions C01_load_onto_id_in_use_restamp.
+
+(* ... and so for the direct entry points and the id the text names *)
+Theorem C01_load_onto_id_in_use_direct : forall ep s t gid g,
+  is_direct ep = true -> store_wf s = true -> text_graph t = Some g ->
+  graph_shape g = true -> g_nodes g <> [] -> (forall n, In n (g_nodes g) -> has_gid gid n = true) ->
+  forall gid', exists s', import_via ep s t gid' = (s', ROk gid)
+             /\ extract s' gid = Some (copy_direct s g)
+             /\ content (copy_direct s g) = content g.
+Proof. exact load_direct_any_store. Qed.
+Print Assumptions C01_load_onto_id_in_use_direct.
+
+(* RELOAD UNDER THE SAME ID (t.load(graph_string=snapshot), t.load(file_name=saved), load(.., new_graph_id=current id)):
+   a stored graph is serialized; whatever happens to the store in between (s2 is ANY well-formed store), loading the
+   snapshot back under the graph's own id through any entry point leaves exactly the snapshot's content under that id *)
+Theorem C01_reload_same_id : forall f ep s s2 gid g,
+  store_wf s = true -> extract s gid = Some g -> fmt_ok f g = true -> graph_ids_ok g = true -> store_wf s2 = true ->
+  exists t, serialize_graph s gid f = Some (Some t)
+            /\ forall gid', exists s' g', import_via ep s2 t (if is_direct ep then gid' else gid) = (s', ROk gid)
+                                         /\ extract s' gid = Some g' /\ content g' = content g.
+Proof. exact reload_same_id. Qed.
+Print Assumptions C01_reload_same_id.
+
 (* ================= serializing the copy again ================= *)
 (* the second text denotes exactly the imported copy, whose content is that of the first text (up to the stamp) *)
 Theorem C01_reserialize_stable_restamp : forall f s gid' g,
